@@ -8,5 +8,6 @@ CONSTANTS
   DEV_AccumulatingRoot = FALSE
     DEV_NoTruncate = FALSE
   DEV_NetworkCached = TRUE
+  DEV_FailedWriteKeepsDoc = FALSE
 VIEW View
 PROPERTY PropOwnInputs
